@@ -32,7 +32,7 @@ RECURSION_FRAMES = {"visitor", "_schedule", "_cached_schedule", "_visit", "dfs_i
 
 def budget(tier):
     if tier == "thorough":
-        return {"cases": 12000, "deadline_s": 900, "case_timeout_s": 400, "floors": {"lib_decisions": 20000, "cli_commands": 3000, "size_runs": 60}}
+        return {"cases": 40000, "deadline_s": 900, "case_timeout_s": 400, "floors": {"lib_decisions": 30000, "cli_commands": 20000, "size_runs": 60}}
     return {"cases": 4000, "deadline_s": 100, "case_timeout_s": 150, "floors": {"lib_decisions": 3000, "cli_commands": 300, "size_runs": 12}}
 
 
@@ -173,6 +173,7 @@ def run_lib(case, root, variant, kinds, res):
         res.violation("crash", "graph building crashed with %r" % (e,), variant=[(t["name"], t["ins"], t["outs"]) for t in variant])
         return
     want = {KIND_EXC[k] for k in kinds}
+    res.obs("decision", {"targets": [(t["name"], t["ins"], t["outs"]) for t in variant], "defects_that_apply": sorted(kinds), "gwf_raised": got})
     if not kinds and got is not None:
         res.violation("false-reject", "well-formed workflow rejected with %s" % got, variant=[(t["name"], t["ins"], t["outs"]) for t in variant])
     elif kinds and got is None:
